@@ -27,6 +27,10 @@ var c14Templates = []string{
 	// globals defined through the explicit global table, in the file of the request
 	/* 12 */ "_G.v\x01 = 1\nfunction _G.v\x02() end\n\x0e\nlocal v\x03 = 1\n\x0e\nfunction f()\n \x0e\nend\n",
 	/* 13 */ "\x0e\nv\x01 = 1\n_G.v\x02 = 2\n\x0e\n",
+	// the until condition sees the locals of the repeat body (also from a closure written in the condition)
+	/* 14 */ "local v\x01 = 0\nrepeat\n local v\x02 = 1\nuntil \x0f\n\x0e\n",
+	/* 15 */ "repeat local v\x01 = 1 until \x0f\n",
+	/* 16 */ "local v\x01 = 0\nrepeat\n local v\x02 = 1\nuntil (function(v\x03) return \x0f end)()\n",
 }
 
 // a second file of the workspace: plain and _G-qualified globals (all must be offered) and a local (never)
